@@ -267,6 +267,8 @@ def render_fn(p, fid, ctx, prelude):
     lines.append("    r = [%r, %d%s]" % (f["name"], f["const"], "".join(", " + n for n, _ in f["params"])))
     for (vid, access) in f["reads"]:
         lines.append("    r.append(%s)" % ctx.var_expr(vid, access))
+    if f.get("fail") and f["fail"].get("when") == "start":
+        lines.append("    raise vlog.make_exc(%r, %s, 'boom from %s')" % (f["name"], f["fail"]["cls"], f["name"]))
     for i, s in enumerate(f["stmts"]):
         k = s["k"]
         if k == "call":
@@ -312,6 +314,8 @@ def render_fn(p, fid, ctx, prelude):
         else:
             raise ValueError(k)
         lines.append("    r.append(x%d)" % i)
+    if f.get("fail") and f["fail"].get("when", "end") == "end":
+        lines.append("    raise vlog.make_exc(%r, %s, 'boom from %s')" % (f["name"], f["fail"]["cls"], f["name"]))
     if f.get("ret") == "str":
         lines.append("    return \"|\".join(repr(y) for y in r)")
     else:
